@@ -21,6 +21,10 @@ pub struct Case {
     pub identity: usize,
     pub combo: u64,
     pub nla_seed: u64,
+    /// 0: conforming server; 1: the server (or a man in the middle) answers the negotiation with a selection that
+    /// leaves the transport in clear (`selected`, no TLS); 2: NLA with an unusual CHALLENGE flag set (`flags`)
+    pub server: u8,
+    pub flags: u32,
 }
 
 fn secret(r: &mut Rng, n: usize, unicode: bool) -> String {
@@ -54,7 +58,23 @@ pub fn make_case(combo: u64, idx: u64, seed: u64) -> Case {
     }
     c.name = client::ascii_name(&mut r, 10);
     let selected = if c.nla && r.chance(3, 4) { 2 } else { 1 };
-    Case { cfg: c, selected, identity: *r.pick(&[0usize, 2, 3]), combo, nla_seed: r.next() }
+    let mut case = Case { cfg: c, selected, identity: *r.pick(&[0usize, 2, 3]), combo, nla_seed: r.next(), server: 0, flags: 0xE28A8235 };
+    // drawn last: one case in three meets a server that does not play by the rules
+    match r.below(6) {
+        0 => {
+            case.server = 1;
+            case.selected = *r.pick(&[0u32, 0, 0, 4, 8, 16, 0x20, 0x80000000]);
+        }
+        1 => {
+            if case.cfg.nla {
+                case.server = 2;
+                case.selected = 2;
+                case.flags = *r.pick(&[0xE28A8235u32 & !1, 0xE28A8235 & !1 | 2, 0xE28A8235 & !0x0200_0000, 0xE28A8235 & !0x30, 0xE28A8235 & !0x4000_0000, 0xE28A8235 & !0x0008_0000, 0x201, 0x202, 0, 0xffff_ffff, 0xE28A8235 & !0x0080_0000]);
+            }
+        }
+        _ => {}
+    }
+    case
 }
 
 fn find(hay: &[u8], needle: &[u8]) -> Vec<usize> {
@@ -71,7 +91,7 @@ fn find(hay: &[u8], needle: &[u8]) -> Vec<usize> {
 }
 
 fn describe(c: &Case) -> Value {
-    json!({"combo": c.combo, "cfg": c.cfg.to_json(), "selected": c.selected, "identity": c.identity, "nla_seed": c.nla_seed})
+    json!({"combo": c.combo, "cfg": c.cfg.to_json(), "selected": c.selected, "identity": c.identity, "nla_seed": c.nla_seed, "server": c.server, "flags": c.flags})
 }
 
 pub fn check_case(c: &Case, rep: &mut Report) {
@@ -80,10 +100,16 @@ pub fn check_case(c: &Case, rep: &mut Report) {
     p.selected_protocol = c.selected;
     let d = Duplex::new(p);
     let mut nr = Rng::new(c.nla_seed);
-    let nla = gen::nla_cfg(&mut nr, &c.cfg);
+    let mut nla = gen::nla_cfg(&mut nr, &c.cfg);
+    if c.server == 2 {
+        nla.challenge_flags = c.flags;
+    }
     d.with(|s| {
         s.tls_identity = c.identity;
         s.nla_cfg = nla;
+        if c.server == 1 {
+            s.tls_policy = crate::server::TlsPolicy::Never;
+        }
     });
     let probe = d.clone();
     let cfg = c.cfg.clone();
@@ -134,6 +160,10 @@ pub fn check_case(c: &Case, rep: &mut Report) {
                     viol.push((format!("{}-in-decrypted-stream-outside-client-info", name), format!("{} at offset {} of the decrypted stream, outside the Client Info PDU", name, pos)));
                 }
             }
+        }
+        if c.server != 0 {
+            // a server outside the rules: only the negative part (the secrets appear nowhere else) is judged
+            return;
         }
         // 4. connection request flags
         if let Some(ClientMsg::ConnectionRequest { flags, .. }) = s.events.first().map(|e| &e.msg) {
@@ -187,12 +217,15 @@ pub fn check_case(c: &Case, rep: &mut Report) {
         Ok(()) => rep.hist("connected"),
         Err(e) => {
             rep.hist(&format!("connect-error:{}", e));
-            rep.inconclusive(&format!("connect failed ({}) in mode {}", e, mode));
+            if c.server == 0 {
+                rep.inconclusive(&format!("connect failed ({}) in mode {}", e, mode));
+            }
         }
     }
-    if connect.is_ok() {
+    if connect.is_ok() || c.server != 0 {
         rep.nontrivial(fnv(j.to_string().as_bytes()));
     }
+    rep.set("server_behaviours", ["conforming", "selection-leaves-transport-in-clear", "unusual-challenge-flags"][c.server as usize].to_string());
     rep.set("modes", mode.clone());
     if rep.want_sample() {
         let jj = j.clone();
@@ -222,7 +255,7 @@ pub fn replay(_cfg: &Cfg, v: &Value) -> Report {
         let a: Vec<u64> = a.as_array().unwrap().iter().map(|x| x.as_u64().unwrap()).collect();
         make_case(a[1], a[2], a[3])
     } else {
-        Case { cfg: ConnCfg::from_json(&v["cfg"]), selected: v["selected"].as_u64().unwrap_or(1) as u32, identity: v["identity"].as_u64().unwrap_or(2) as usize, combo: v["combo"].as_u64().unwrap_or(0), nla_seed: v["nla_seed"].as_u64().unwrap_or(1) }
+        Case { cfg: ConnCfg::from_json(&v["cfg"]), selected: v["selected"].as_u64().unwrap_or(1) as u32, identity: v["identity"].as_u64().unwrap_or(2) as usize, combo: v["combo"].as_u64().unwrap_or(0), nla_seed: v["nla_seed"].as_u64().unwrap_or(1), server: v["server"].as_u64().unwrap_or(0) as u8, flags: v["flags"].as_u64().unwrap_or(0xE28A8235) as u32 }
     };
     check_case(&c, &mut rep);
     rep
